@@ -376,6 +376,173 @@ Definition h_op_meta (w : hworld) (ti n : nat) (o : metaop) : res * hworld :=
               else (Err EModel, w)
   end.
 
+(* ---- copies: add_child(node), _add_from ---- *)
+Definition copy_info (keep_kind : bool) (i : info) : info :=
+  I (i_obj i) (i_eqc i) (i_hash i) (i_isstr i) (i_name i) (i_did i) (if keep_kind then i_kind i else None) [].
+
+(* Node._add_from: `for child in other.children: new_child = self.add_child(child.data, data_id=child._data_id);
+   if child.children: new_child._add_from(child)` - [hs] is the heap the source is read from *)
+Fixpoint h_add_from (fuel : nat) (keep_kind : bool) (hs : hstate) (src : nat) (h : hstate) (dst nx : nat) : hstate * nat :=
+  match fuel with
+  | 0 => (h, nx)
+  | S f =>
+      fold_left (fun (acc : hstate * nat) c =>
+                   let (a, n) := acc in
+                   let a1 := h_register (h_init a n dst (copy_info keep_kind (hinf hs c))) n in
+                   let a2 := touch_root (set_chl a1 dst (hch a1 dst ++ [n])) dst in      (* children.append / [node] *)
+                   h_add_from f keep_kind hs c a2 n (S n))
+                (hch hs src) (h, nx)
+  end.
+
+Definition h_op_add_node (w : hworld) (ti p sti src : nat) (explicit : option did) (k : kind) (b : before)
+           (deep : option bool) : res * hworld :=
+  match h_get w ti, h_get w sti with
+  | Some h, Some hs =>
+      if negb (h_live hs src && h_plive h p) then (Err EModel, w)
+      else if htyped h && negb (htyped hs) then (Err EType, w)
+      else
+        let dp := match deep with Some x => x | None => false end in
+        if dp && (match explicit with Some _ => true | None => false end) then (Err EValue, w)
+        else if Nat.eqb ti sti && (match hpar hs src with Some q => Nat.eqb q p | None => false end)
+        then (Err EUnique, w)                                        (* source_node._parent is self *)
+        else if (match explicit with Some e => negb (did_eqb e (hdid hs src)) | None => false end)
+        then (Err EUnique, w)
+        else if dp && Nat.eqb ti sti && (if Nat.eqb p 0 then false else h_is_anc (h_fuel hs) hs src p)
+        then (Err EValue, w)                                         (* self is source or self.is_descendant_of(source) *)
+        else
+          let nb := norm_before b in
+          if negb (h_before_ok h p nb) then (Err EValue, w)
+          else if negb (htyped h) && htyped hs then (Err EType, w)
+          else
+            let n := hnext w in
+            let id := match explicit with Some e => e | None => hdid hs src end in
+            let kd := if htyped h then match k with Some _ => k | None => Some [99; 104; 105; 108; 100]%Z end else None in
+            let si := hinf hs src in
+            let inf := I (i_obj si) (i_eqc si) (i_hash si) (i_isstr si) (i_name si) id kd [] in
+            let h1 := h_init h n p inf in
+            if h_collides h p id then (Err EUnique, h_put (h_bump w 1) ti h1)
+            else
+              let h2 := h_register h1 n in
+              let h3 := touch_root (set_chl h2 p (place_ids nb n (hch h2 p))) p in
+              let (h4, n') := if dp then h_add_from (h_fuel hs) (htyped h) hs src h3 n (S n) else (h3, S n) in
+              (Ok [n], h_put (HW (htrees w) n') ti h4)
+  | _, _ => (Err EModel, w)
+  end.
+
+Fixpoint h_add_nodes (w : hworld) (ti p sti : nat) (srcs : list nat) (b : before) (deep : option bool)
+         (acc : list nat) : res * hworld :=
+  match srcs with
+  | [] => (Ok acc, w)
+  | s :: rest =>
+      match h_op_add_node w ti p sti s None None b deep with
+      | (Ok r, w') => h_add_nodes w' ti p sti rest b deep (acc ++ r)
+      | (Err e, w') => (Err e, w')
+      end
+  end.
+
+Definition h_any_collides (h : hstate) (p : nat) (hs : hstate) (srcs : list nat) : bool :=
+  existsb (fun s => h_live hs s && h_collides h p (hdid hs s)) srcs.
+
+Definition h_any_into_own_branch (ti sti : nat) (hs : hstate) (srcs : list nat) (p : nat) (deep : option bool) : bool :=
+  match deep with
+  | Some true => Nat.eqb ti sti && existsb (fun s => h_live hs s && (if Nat.eqb p 0 then false else h_is_anc (h_fuel hs) hs s p)) srcs
+  | _ => false
+  end.
+
+Definition h_op_add_tree (w : hworld) (ti p sti : nat) (b : before) (deep : option bool) : res * hworld :=
+  match h_get w ti, h_get w sti with
+  | Some h, Some hs =>
+      if htyped h && negb (htyped hs) then (Err EType, w)
+      else
+      let tops := hch hs 0 in
+      let nch := if h_plive h p then length (hch h p) else 0 in
+      let jb := match b with BTrue => Some 0 | BIdx z => Some (py_index z nch) | _ => None end in
+      let order := match jb with Some _ => rev tops | None => tops end in
+      let b := match jb with Some j => BIdx (Z.of_nat j) | None => b end in
+      let dp := match deep with Some x => Some x | None => Some true end in
+      if h_any_collides h p hs tops then (Err EUnique, w)
+      else if h_any_into_own_branch ti sti hs tops p dp then (Err EValue, w)
+      else match h_add_nodes w ti p sti order b dp [] with
+           | (Ok r, w') => (Ok (if htyped h then [] else match rev r with x :: _ => [x] | [] => [] end), w')
+           | other => other
+           end
+  | _, _ => (Err EModel, w)
+  end.
+
+Definition h_op_copy_to (w : hworld) (sti src ti target : nat) (add_self : bool) (b : before) (deep : bool)
+  : res * hworld :=
+  if add_self then h_op_add_node w ti target sti src None None b (Some deep)
+  else
+    match h_get w ti, h_get w sti with
+    | Some h, Some hs =>
+        if negb (h_plive hs src) then (Err EModel, w)
+        else match hch hs src with
+             | [] => (Err EValue, w)
+             | ch =>
+                 if h_any_collides h target hs ch then (Err EUnique, w)
+                 else if h_any_into_own_branch ti sti hs ch target (Some deep) then (Err EValue, w)
+                 else match h_add_nodes w ti target sti ch BNone (Some deep) [] with
+                      | (Ok r, w') => (Ok (if Nat.eqb src 0 then [] else match r with x :: _ => [x] | [] => [] end), w')
+                      | other => other
+                      end
+             end
+    | _, _ => (Err EModel, w)
+    end.
+
+(* Tree.copy() / Node.copy(): a new tree, the branches copied below its root *)
+Definition h_op_tree_copy (w : hworld) (sti : nat) : res * hworld :=
+  match h_get w sti with
+  | None => (Err EModel, w)
+  | Some hs =>
+      let (h', n') := h_add_from (h_fuel hs) (htyped hs) hs 0 (h_empty (htyped hs) None) 0 (hnext w) in
+      (Ok [length (htrees w)], HW (htrees w ++ [h']) n')
+  end.
+
+Definition h_op_node_copy (w : hworld) (sti src : nat) (add_self : bool) : res * hworld :=
+  match h_get w sti with
+  | None => (Err EModel, w)
+  | Some hs =>
+      if negb (h_live hs src) then (Err EModel, w)
+      else
+        let h0 := h_empty (htyped hs) None in
+        let (h', n') :=
+          if add_self then
+            let n := hnext w in
+            let si := hinf hs src in
+            let kd := if htyped hs then Some [99; 104; 105; 108; 100]%Z else None in
+            let inf := I (i_obj si) (i_eqc si) (i_hash si) (i_isstr si) (i_name si) (i_did si) kd [] in
+            let a1 := h_register (h_init h0 n 0 inf) n in
+            let a2 := touch_root (set_chl a1 0 (hch a1 0 ++ [n])) 0 in
+            h_add_from (h_fuel hs) (htyped hs) hs src a2 n (S n)
+          else h_add_from (h_fuel hs) (htyped hs) hs src h0 0 (hnext w) in
+        (Ok [length (htrees w)], HW (htrees w ++ [h']) n')
+  end.
+
+(* ---- sort_children(deep=True): sort this level, then every child in its new order ---- *)
+Fixpoint h_sort_deep (fuel : nat) (k : keyt) (reverse : bool) (h : hstate) (p : nat) (failed : bool) : hstate * bool :=
+  match fuel with
+  | 0 => (h, true)
+  | S f =>
+      if failed then (h, true)
+      else match hch h p with
+           | [] => (h, false)
+           | cl =>
+               if negb (keys_ok_n k cl) then (h, true)
+               else
+                 let sorted := py_sort_n k reverse cl in
+                 fold_left (fun (acc : hstate * bool) c => h_sort_deep f k reverse (fst acc) c (snd acc))
+                           sorted (set_chl h p sorted, false)
+           end
+  end.
+
+Definition h_op_sort_deep (w : hworld) (ti p : nat) (k : keyt) (reverse : bool) : res * hworld :=
+  match h_get w ti with
+  | None => (Err EModel, w)
+  | Some h => if negb (h_plive h p) then (Err EModel, w)
+              else let (h', failed) := h_sort_deep (h_fuel h) k reverse h p false in
+                   (if failed then Err ECrash else Ok [], h_put w ti h')
+  end.
+
 (* ---- del tree[key] = tree[key].remove(): the lookup reads registry and index only ---- *)
 Definition h_getitem (h : hstate) (k : delkey) : option (list nat) :=
   match k with
@@ -446,13 +613,18 @@ Definition modelled_heap (o : op) : bool :=
   | ORemoveChildren _ _ => true
   | OClear _ => true
   | OMove _ _ _ _ _ => true
-  | OSort _ _ _ _ deep => negb deep
+  | OSort _ _ _ _ _ => true
   | OMeta _ _ _ => true
   | ONewTree _ _ => true
   | ODel _ _ => true
   | OShort _ _ _ _ _ _ => true
   | OSetData _ _ _ _ _ => true
   | ORename _ _ _ => true
+  | OAddNode _ _ _ _ _ _ _ _ => true
+  | OAddTree _ _ _ _ _ => true
+  | OCopyTo _ _ _ _ _ _ _ => true
+  | OTreeCopy _ => true
+  | ONodeCopy _ _ _ => true
   | _ => false
   end.
 
@@ -464,6 +636,12 @@ Definition h_step (w : hworld) (o : op) : res * hworld :=
   | OClear ti => h_op_remove_children w ti 0
   | OMove ti n tti target b => h_op_move w ti n tti target b
   | OSort ti p k r false => h_op_sort_flat w ti p k r
+  | OSort ti p k r true => h_op_sort_deep w ti p k r
+  | OAddNode ti p sti src e k b deep => h_op_add_node w ti p sti src e k b deep
+  | OAddTree ti p sti b deep => h_op_add_tree w ti p sti b deep
+  | OCopyTo sti src ti target a b deep => h_op_copy_to w sti src ti target a b deep
+  | OTreeCopy sti => h_op_tree_copy w sti
+  | ONodeCopy sti src a => h_op_node_copy w sti src a
   | OMeta ti n o => h_op_meta w ti n o
   | ONewTree ty c => (Ok [length (htrees w)], HW (htrees w ++ [h_empty ty c]) (hnext w))
   | ODel ti k => h_op_del w ti k
